@@ -30,6 +30,7 @@ def build_registry() -> Registry:
 
     auth_c.declare_pop3_auth(reg)
     auth_c.declare_pop3_relay(reg)
+    auth_c.declare_pop3_gate(reg)
     from ._props import PROPS
 
     for pid, info in PROPS.items():
